@@ -274,7 +274,7 @@ func (r *run36) run(bi int, beh []map[string]any, res *vh.Result) bool {
 			// A real scheduler fires a timer when its duration has elapsed. Where the only real-time deadline is the
 			// connection's expiry (no pings), a timer the code armed for an EARLIER instant than the model's deadline is
 			// fired now, like any scheduler would: closing before the deadline then shows as such.
-			if a := r.sch.active("c"); !c.Ping && len(a) == 1 && a[0].d < time.Hour && time.Since(a[0].at.Add(a[0].d)) > 200*time.Millisecond {
+			if a := r.sch.active("c"); !c.Ping && len(a) == 1 && a[0].d < time.Hour && time.Until(a[0].at.Add(a[0].d)) < 400*time.Millisecond {
 				mt := vh.Map(st["tmr"])
 				if !(vh.Str(mt["op"]) == "expire" && vh.Int(mt["at"]) <= vh.Int(st["now"])) && timingOK() {
 					nowU := time.Now().Unix()
